@@ -64,6 +64,13 @@ def jobs(pid, tier):
             J.append(Job('parse', dict(alphabet='subst2', maxlen=10, nv=2), need_outcomes=['accepted', 'rejected']))
         else:
             J.append(Job('parse', dict(alphabet='subst', maxlen=11, nv=3), need_outcomes=['accepted', 'rejected']))
+        # the contracts the translator's BDD context stands for, discharged on the real manager
+        J.append(Job('k5_apply', dict(N=5, L=3) if q else dict(N=6, L=3),
+                     need_outcomes=['returned:' + f for f in
+                                    ('not', 'and', 'or', 'xor', 'implies', 'equiv', 'diff',
+                                     'forall', 'exists', 'ite')] + ['arity_refused']))
+        J.append(Job('quant', dict(N=3, L=3, entries=['quantify_names']), need_outcomes=['returned:quantify_names']))
+        J.append(Job('let', dict(N=3 if q else 4, L=3, kinds=['rename']), need_outcomes=['returned:rename']))
     if pid == 'C06':
         J.append(Job('k8_gc', dict(N=4, L=2, roots=0, nondet=True), need_outcomes=['collected', 'nothing_to_collect']))
         J.append(Job('k8_gc', dict(N=5, L=3, roots=0, nondet=not q), need_outcomes=['collected', 'nothing_to_collect']))
@@ -94,6 +101,15 @@ def jobs(pid, tier):
         J.append(Job('k7_swap', dict(N=4, L=2, x=0, K=2, handle=True), need_outcomes=['swapped']))
         J.append(Job('k8_gc', dict(N=4, L=2, roots=0, nondet=True), need_outcomes=['collected']))
         J.append(Job('k8_gc', dict(N=4, L=3, roots=0, nondet=False, shutdown=True), need_outcomes=['shutdown']))
+    # the property's own decorated operations under dynamic reordering (the reorder contract with
+    # a real change of order, firing at every node creation): the C09 harness restricted to them
+    DYN = {'C01': ['ite', 'apply_and'], 'C02': ['var', 'cube', 'apply_and'],
+           'C03': ['quantify', 'forall_method', 'apply_forall', 'quantify_kw'],
+           'C04': ['cofactor', 'compose', 'rename'], 'C05': ['add_expr'],
+           'C06': ['cube', 'var', 'ite']}
+    if pid in DYN:
+        J.append(Job('dynreorder', dict(N=3, L=2, fires=1, permute=True, ops=DYN[pid]),
+                     need_outcomes=['fired:' + DYN[pid][0]]))
     if pid == 'C09':
         J.append(Job('dynreorder', dict(N=3, L=2, fires=1 if q else 2), need_outcomes=['fired:ite', 'quiet:ite', 'fired:quantify']))
         # the reorder contract with a real change of order (every permutation), decorated operations
@@ -106,6 +122,11 @@ def jobs(pid, tier):
                      ('support', 'essential', 'count', 'pick_iter', 'pick')]))
         J.append(Job('sat', dict(N=4 if q else 5, L=3), need_outcomes=['returned:' + e for e in
                      ('support', 'essential', 'count', 'pick_iter', 'pick')]))
+        J.append(Job('sat', dict(N=4, L=4, kinds=['support', 'essential']),
+                     need_outcomes=['returned:support', 'returned:essential']))
+        if not q:
+            J.append(Job('sat', dict(N=4, L=4, kinds=['count', 'pick']),
+                         need_outcomes=['returned:count', 'returned:pick']))
     if pid == 'C11':
         J.append(Job('copy', dict(N=4, L=2, NT=3, extra=0), need_outcomes=['returned:' + v for v in
                      ('copy_bdd', 'BDD.copy', '_copy.copy_bdd', '_copy.copy_bdds_from', 'autoref.copy')]))
